@@ -42,6 +42,16 @@ def strat_route(draw, tier, holes=False):
                             max_dead_frac=0.25))
     if draw(st.integers(0, 2)) == 0:
         m["mesh"] = False
+    if holes == "links":
+        # 10-30% of all links dead, each in one direction only
+        w_, h_ = m["w"], m["h"]
+        m["dead_chips"] = []
+        k = draw(st.integers((6 * w_ * h_) // 10, (18 * w_ * h_) // 10))
+        dl = draw(st.lists(st.tuples(st.integers(0, w_ - 1),
+                                     st.integers(0, h_ - 1),
+                                     st.integers(0, 5)),
+                           min_size=k, max_size=k))
+        m["dead_links"] = sorted(set(dl))
     chips = pr.live_chips(m)
     nv = draw(st.integers(3 if holes else 1, 10 if big else 7))
     names = ["v%d" % i for i in range(nv)]
@@ -264,6 +274,10 @@ def strat_holes(tier):
     return strat_route(tier, True)
 
 
+def strat_links(tier):
+    return strat_route(tier, "links")
+
+
 CLAUSES = [
     Clause("trees", check_route, strategy=strat_route,
            rule="machines weighted to 1xN / 2xN shapes, torus and mesh, dead "
@@ -273,6 +287,13 @@ CLAUSES = [
                 "non-trivial = a net reaches >= 3 distinct sink chips, or the "
                 "machine has faults and the tree has >= 1 hop",
            examples={"quick": 1500, "thorough": 25000},
+           shards={"quick": 8, "thorough": 16}),
+    Clause("dead-links", check_route, strategy=strat_links,
+           rule="as 'trees' on machines 4-12 wide, 3-8 high in which 10-30% "
+                "of all links are dead in one direction (no dead chips): "
+                "several repairs per net that hang one orphaned piece under "
+                "another; same non-triviality rule",
+           examples={"quick": 2500, "thorough": 40000},
            shards={"quick": 8, "thorough": 16}),
     Clause("holes", check_route, strategy=strat_holes,
            rule="as 'trees' on machines 4-12 wide, 3-8 high with up to 45% "
